@@ -591,6 +591,10 @@ func runC20(r *Run, verifDir string) {
 				}
 			}
 		})
+		if !makes && c20PooledCoderCleared(fn) {
+			r.OK("C20.E5", key, fn.Pos(), "borrows its coder from a sync.Pool and every coder it hands back is cleared first: no state of an earlier call is left in it")
+			continue
+		}
 		r.Check(makes, "C20.E5", key, fn.Pos(), "creates its own coder", "does not create its own coder for the call")
 	}
 	// Clear of each writer resets every field that is ever written after construction
@@ -932,4 +936,65 @@ func pointerLike(t types.Type) bool {
 		return true
 	}
 	return false
+}
+
+// c20PooledCoderCleared: fn takes its coder out of a sync.Pool (Get asserted to a ttlv Encoder/Decoder) and, in fn and
+// its closures, every Put of such a coder is preceded in its block by a Clear() of the same object — the state the
+// previous borrower left (buffer, version) is gone before the next one sees it, which is what "its own coder" is for.
+func c20PooledCoderCleared(fn *ssa.Function) bool {
+	isCoder := func(t types.Type) bool {
+		if pt, ok := t.Underlying().(*types.Pointer); ok {
+			t = pt.Elem()
+		}
+		n := typeName(t)
+		return (n == "Encoder" || n == "Decoder") && typePkgPath(t) == ttlvPath
+	}
+	root := func(v ssa.Value) ssa.Value {
+		for i := 0; i < 6; i++ {
+			switch x := v.(type) {
+			case *ssa.MakeInterface:
+				v = x.X
+			case *ssa.ChangeType:
+				v = x.X
+			case *ssa.UnOp:
+				if x.Op == token.MUL {
+					return x.X // a load: identified by the cell it reads
+				}
+				return v
+			default:
+				return v
+			}
+		}
+		return v
+	}
+	gets, puts, ok := 0, 0, true
+	withClosures(fn, func(f *ssa.Function) {
+		for _, b := range f.Blocks {
+			cleared := map[ssa.Value]bool{}
+			for _, in := range b.Instrs {
+				if ta, isTA := in.(*ssa.TypeAssert); isTA && isCoder(ta.AssertedType) {
+					if c, isCall := ta.X.(*ssa.Call); isCall && callID(&c.Call).is("sync", "Pool", "Get") {
+						gets++
+					}
+				}
+				c := callOf(in)
+				if c == nil {
+					continue
+				}
+				id := callID(c)
+				if id.pkg == ttlvPath && id.name == "Clear" && len(c.Args) > 0 && isCoder(c.Args[0].Type()) {
+					cleared[root(c.Args[0])] = true
+				}
+				if id.is("sync", "Pool", "Put") && len(c.Args) == 2 {
+					if mi, isMI := c.Args[1].(*ssa.MakeInterface); isMI && isCoder(mi.X.Type()) {
+						puts++
+						if !cleared[root(c.Args[1])] {
+							ok = false
+						}
+					}
+				}
+			}
+		}
+	})
+	return gets > 0 && puts > 0 && ok
 }
